@@ -106,11 +106,36 @@ void profile_writemon(const json& plan, Ctx& ctx) {
 				if (saveNif(*nif, bad).streamFailed) ctx.fault("F-WFAIL");
 			}
 			SaveOut so = saveAndCheck(jbool(st, "raw", true), where);
-			auto fresh = std::make_unique<NifFile>();
-			if (loadNif(*fresh, so.bytes).rc != 0) ctx.viol("file:not-loadable", where + ": the written file does not load");
-			nif = std::move(fresh);
+			if (jbool(st, "same_object", false)) {
+				// the application keeps its NifFile object and loads the file back into it
+				if (loadNif(*nif, so.bytes).rc != 0) ctx.viol("file:not-loadable", where + ": the written file does not load (into the object that wrote it)");
+				ctx.probe("restart_into_same_object");
+			}
+			else {
+				auto fresh = std::make_unique<NifFile>();
+				if (loadNif(*fresh, so.bytes).rc != 0) ctx.viol("file:not-loadable", where + ": the written file does not load");
+				nif = std::move(fresh);
+			}
 			ctx.fault("F-RESTART");
 			ctx.sig.tag("restart");
+		}
+		else if (op == "LoadInto") {
+			// object reuse: the next job (another file, possibly of another version) is loaded into the same NifFile object
+			std::string bytes;
+			if (st.contains("sample")) {
+				auto it = samples().find(st["sample"].get<std::string>());
+				if (it != samples().end()) bytes = it->second;
+			}
+			if (bytes.empty() || loadNif(*nif, bytes).rc != 0) { ctx.info["rejected_load_into"] = true; return; }
+			ctx.probe("object_reused_for_another_file");
+			ctx.sig.tag("loadinto");
+			ctx.sig.str(jstr(st, "sample"));
+		}
+		else if (op == "CreateInto") {
+			nif->Create(versionByName(jstr(st, "version", "SSE")));
+			ctx.probe("object_reused_for_a_new_model");
+			ctx.sig.tag("createinto");
+			ctx.sig.str(jstr(st, "version"));
 		}
 		else if (applyEdit(*nif, st, ctx)) { ctx.sig.tag(op.c_str()); }
 		stepNo++;
